@@ -16,9 +16,7 @@ Definition mk_cpu (c : Z) : cpu :=
   if c =? 0 then Cpu32 else if c =? 1 then CpuAmd64 else if c =? 2 then CpuArm64 else CpuOther64.
 (* regions: kind 0 = (base,size,prot) memory info; kind 1 = (lo,hi,rwx bits) maps *)
 Definition mk_regions (kind : Z) (l : list (Z * Z * Z)) : list region :=
-  map (fun e => let '(a, b, p) := e in
-                if kind =? 0 then region_of_info a b p
-                else region_of_map a b (Z.testbit p 2) (Z.testbit p 1) (Z.testbit p 0)) l.
+  if kind =? 0 then regions_of_info l else regions_of_maps l.
 
 Definition run_try (a reg br : Z) (ctx : option (Z * list Z)) (kind : Z) (regs : list (Z * Z * Z)) (op : Z)
   : list (list Z) :=
@@ -70,10 +68,25 @@ Definition mk_operand (e : Z * Z * Z * Z) : memoperand :=
 Definition out_adj (a : gadj) : list Z :=
   match a with GAdjNone => [0] | GAdjNonCanonical v => [1; v] | GAdjNullPointerWithOffset o => [2; o] end.
 
-(* dec: None = no analysis (no instruction bytes / unsupported cpu); Some (lea, operands) = decoded instruction *)
+Definition mk_implicit (k : Z) : implicit_kind := if k =? 1 then ImpPushCall else if k =? 2 then ImpPopRet else ImpNone.
+(* ip: 0 no update, 1 undetermined, 2 register ipv, 3 read value ipv, 4 read failed *)
+Definition mk_ip (k v : Z) : ip_kind :=
+  if k =? 0 then IpkNoUpdate else if k =? 2 then IpkReg v else if k =? 3 then IpkRead (Some v)
+  else if k =? 4 then IpkRead None else IpkUndetermined.
+Definition out_info (ai : addr_info) : list Z := [ai_addr ai; b2z (ai_null ai)].
+(* analysis as printed by the harness: accesses ([-1] = undetermined), ip update ([-1] undetermined, [0] none, [1;a;n]) *)
+Definition out_analysis (oa : option op_analysis) : list (list Z) * list Z :=
+  match oa with
+  | None => ([[-2]], [-2])
+  | Some o => (match oa_accesses o with None => [[-1]] | Some l => map out_info l end,
+               match oa_ip o with None => [-1] | Some IpNoUpdate => [0] | Some (IpUpdate ai) => 1 :: out_info ai end)
+  end.
+
+(* dec: None = no analysis (no instruction bytes / unsupported cpu);
+   Some (lea, memsize, implicit, ipk, ipv, operands) = decoded instruction *)
 Definition run_q (arch os code flags nparams info0 info1 excaddr : Z) (ctx : option (list Z))
-           (dec : option (bool * list (Z * Z * Z * Z))) (kind : Z) (regs : list (Z * Z * Z))
-  : list Z * list (list Z) :=
+           (dec : option (bool * bool * Z * Z * Z * list (Z * Z * Z * Z))) (kind : Z) (regs : list (Z * Z * Z))
+  : list Z * list (list Z) * (list (list Z) * list Z) :=
   let c := cpu_of_arch arch in
   let address := q_address c os code nparams info1 excaddr in
   let r := q_reason os code flags nparams info0 in
@@ -81,9 +94,12 @@ Definition run_q (arch os code flags nparams info0 info1 excaddr : Z) (ctx : opt
   let analysis := fun x =>
     if gcpu_eqb c GX86_64 then
       match dec with
-      | Some (lea, ops) => analyze_dinstr {| di_lea := lea; di_memsize := true; di_ops := map mk_operand ops |} x
+      | Some (lea, ms, imp, ipk, ipv, ops) =>
+          analyze_dinstr {| di_lea := lea; di_memsize := ms; di_ops := map mk_operand ops;
+                            di_implicit := mk_implicit imp; di_ip := mk_ip ipk ipv |} x
       | None => None
       end
     else None in
   (out_adj (pipeline_adj analysis c (q_os os) r address pc),
-   map out_flip (pipeline analysis c (q_os os) r address pc (mk_regions kind regs))).
+   map out_flip (pipeline analysis c (q_os os) r address pc (mk_regions kind regs)),
+   out_analysis (the_analysis analysis pc)).
